@@ -212,9 +212,10 @@ def syntax_cause(h, r) -> str:
     has_layers = isinstance(snap, list) and snap and snap[0] == "doc" and (snap[5] or snap[10])
     if has_layers and h.info.get("wrapper") in docs.CALL_WRAPPERS:
         return "let-in-call-argument"
-    if r.op[0] == "set" and "#" in r.op[2] and any(("{ " in ln and ln.rstrip().endswith("}")) or ln.count(";") > 1
-                                                      for ln in r.out.split("\n") if "#" in ln):
-        return "line-comment-value-in-one-line-set"
+    if r.op[0] == "set" and "#" in r.op[2]:
+        cm = r.op[2][r.op[2].index("#"):].split("\n")[0].rstrip()
+        if any(cm in ln and ln.split(cm, 1)[1].strip() != "" for ln in r.out.split("\n")):
+            return "line-comment-value-in-one-line-set"  # code follows the VALUE's line comment on its line
     return "other"
 
 
